@@ -13,6 +13,10 @@
 #define protected public
 #include <gnu_gama/local/acord/acord2.h>
 #include <gnu_gama/local/acord/acordpolar.h>
+#include <gnu_gama/local/acord/acordazimuth.h>
+#include <gnu_gama/local/acord/acordhdiff.h>
+#include <gnu_gama/local/acord/acordvector.h>
+#include <gnu_gama/local/acord/acordzderived.h>
 #undef private
 #undef protected
 #include <gnu_gama/local/median/g2d_cogo.h>
@@ -49,6 +53,7 @@ static void print_sol(CoordinateGeometry2D& g, World& w) {
 }
 
 static int run_net(const vector<string>& t);
+static int run_acord(const vector<string>& t);
 
 int main()
 {
@@ -63,7 +68,9 @@ int main()
       if (t[i].compare(0, 2, "0x") == 0) a.push_back(vp::unhex(t[i])); else a.push_back(atof(t[i].c_str()));
     const string& op = t[0];
     try {
-      if (op == "bd" && a.size() == 4) {              // ya xa yb xb
+      if (op == "acord") {
+        run_acord(t);
+      } else if (op == "bd" && a.size() == 4) {              // ya xa yb xb
         double b, d; bearing_distance(a[0], a[1], a[2], a[3], b, d);
         std::cout << "ok " << vp::hex(b) << " " << vp::hex(d) << "\n";
       } else if (op == "dd" && a.size() == 7) {
@@ -174,6 +181,23 @@ int main()
         std::cout << "ori " << vp::hex(z) << " " << n << "\n";
       } else if (op == "net" && t.size() == 2) {
         run_net(t);
+      } else if (op == "acordnet" && t.size() == 2) {
+        // parse a .gkf, run Acord2::execute once, report which points have approximate xy / z afterwards
+        std::unique_ptr<LocalNetwork> IS(new LocalNetwork);
+        {
+          std::ifstream inp(t[1]);
+          GNU_gama::local::GKFparser gkf(*IS);
+          string l;
+          while (std::getline(inp, l)) { l += "\n"; gkf.xml_parse(l.c_str(), l.length(), 0); }
+          gkf.xml_parse("", 0, 1);
+        }
+        IS->remove_inconsistency();
+        Acord2 acord2(IS->PD, IS->OD);
+        acord2.execute();
+        for (auto& q : IS->PD)
+          std::cout << "apt " << q.first << " " << (q.second.active_xy() ? 1 : 0) << " " << (q.second.test_xy() ? 1 : 0)
+                    << " " << (q.second.active_z() ? 1 : 0) << " " << (q.second.test_z() ? 1 : 0) << "\n";
+        std::cout << "missing " << acord2.missing_xy_.size() << " " << acord2.missing_z_.size() << "\n";
       } else std::cout << "bad-op\n";
     } catch (const GNU_gama::local::Exception& e) {
       std::cout << "throw local\n";
@@ -267,5 +291,97 @@ static int run_net(const vector<string>& t)
                 << vp::hex(p.test_z() ? p.z() : 0) << "\n";
     }
   }
+  return 0;
+}
+
+// `acord <strategy> <reps> <cs 0..7> <rh 0|1> records…`: a small in-memory network built through the real
+// classes (PointData, ObservationData, StandPoint / HeightDifferences / Vectors clusters, observation
+// constructors), the real Acord2 constructor, and ONE strategy object whose execute() is run <reps> times
+// (zderived: each followed by Acord2::get_medians_z and candidate_z_.clear(), as in Acord2::execute).
+// Records:  P id bxy x y bz z active_xy active_z | S station | az f t v | d f t v | sd f t v fdh tdh |
+//           za f t v fdh tdh | dir f t v | H | hd f t v | V | dx f t v | dy f t v | dz f t v
+// Output:   (zderived) `cand id h…` per id with candidates before each get_medians_z; then for every id of
+//           the case in order of first appearance `pt id bxy x y bz z missing_xy missing_z`; `completed c`.
+static int run_acord(const vector<string>& t)
+{
+  if (t.size() < 5) { std::cout << "bad-op\n"; return 0; }
+  const string alg = t[1];
+  const int reps = atoi(t[2].c_str());
+  PointData PD; ObservationData OD;
+  PD.local_coordinate_system = LocalCoordinateSystem::CS(atoi(t[3].c_str()));
+  if (atoi(t[4].c_str())) PD.setAngularObservations_Righthanded(); else PD.setAngularObservations_Lefthanded();
+  vector<string> ids;
+  auto note = [&](const string& id) { for (auto& s : ids) if (s == id) return; ids.push_back(id); };
+  auto num = [&](const string& s) { return s.compare(0, 2, "0x") == 0 ? vp::unhex(s) : atof(s.c_str()); };
+  GNU_gama::Cluster<Observation>* cl = nullptr;
+  auto add = [&](Observation* o) { o->set_cluster(cl); cl->observation_list.push_back(o); };
+  size_t i = 5;
+  bool bad = false;
+  while (i < t.size() && !bad) {
+    const string& r = t[i];
+    if (r == "P" && i + 8 < t.size()) {
+      LocalPoint p;
+      if (atoi(t[i + 2].c_str())) p.set_xy(num(t[i + 3]), num(t[i + 4]));
+      if (atoi(t[i + 5].c_str())) p.set_z(num(t[i + 6]));
+      if (atoi(t[i + 7].c_str())) p.set_free_xy();
+      if (atoi(t[i + 8].c_str())) p.set_free_z();
+      PD[t[i + 1]] = p; note(t[i + 1]);
+      i += 9;
+    } else if (r == "S" && i + 1 < t.size()) {
+      StandPoint* sp = new StandPoint(&OD); sp->station = t[i + 1]; note(t[i + 1]);
+      OD.clusters.push_back(sp); cl = sp; i += 2;
+    } else if (r == "H") {
+      cl = new HeightDifferences(&OD); OD.clusters.push_back(cl); i += 1;
+    } else if (r == "V") {
+      cl = new Vectors(&OD); OD.clusters.push_back(cl); i += 1;
+    } else if (cl && (r == "az" || r == "d" || r == "dir" || r == "hd" || r == "dx" || r == "dy" || r == "dz") && i + 3 < t.size()) {
+      const string &f = t[i + 1], &to = t[i + 2]; double v = num(t[i + 3]);
+      note(f); note(to);
+      if (r == "az") add(new Azimuth(f, to, v));
+      else if (r == "d") add(new Distance(f, to, v));
+      else if (r == "dir") add(new Direction(f, to, v));
+      else if (r == "hd") add(new H_Diff(f, to, v));
+      else if (r == "dx") add(new Xdiff(f, to, v));
+      else if (r == "dy") add(new Ydiff(f, to, v));
+      else add(new Zdiff(f, to, v));
+      i += 4;
+    } else if (cl && (r == "sd" || r == "za") && i + 5 < t.size()) {
+      const string &f = t[i + 1], &to = t[i + 2]; double v = num(t[i + 3]);
+      note(f); note(to);
+      Observation* o = (r == "sd") ? static_cast<Observation*>(new S_Distance(f, to, v)) : static_cast<Observation*>(new Z_Angle(f, to, v));
+      o->set_from_dh(num(t[i + 4])); o->set_to_dh(num(t[i + 5]));
+      add(o); i += 6;
+    } else bad = true;
+  }
+  if (bad) { std::cout << "bad-op\n"; return 0; }
+  Acord2 ac(PD, OD);
+  std::unique_ptr<AcordAlgorithm> a;
+  if (alg == "azimuth") a.reset(new AcordAzimuth(&ac));
+  else if (alg == "hdiff") a.reset(new AcordHdiff(&ac));
+  else if (alg == "vector") a.reset(new AcordVector(&ac));
+  else if (alg == "zderived") a.reset(new AcordZderived(&ac));
+  else { std::cout << "bad-op\n"; return 0; }
+  for (int k = 0; k < reps; k++) {
+    a->execute();
+    if (alg == "zderived") {
+      for (auto& id : ids) {
+        auto rg = ac.candidate_z_.equal_range(PointID(id));
+        if (rg.first == rg.second) continue;
+        std::cout << "cand " << id;
+        for (auto c = rg.first; c != rg.second; ++c) std::cout << " " << vp::hex(c->second);
+        std::cout << "\n";
+      }
+      ac.get_medians_z();
+      ac.candidate_z_.clear();
+    }
+  }
+  for (auto& id : ids) {
+    auto f = PD.find(PointID(id));
+    LocalPoint p; if (f != PD.end()) p = f->second;
+    std::cout << "pt " << id << " " << (p.test_xy() ? 1 : 0) << " " << vp::hex(p.test_xy() ? p.x() : 0) << " "
+              << vp::hex(p.test_xy() ? p.y() : 0) << " " << (p.test_z() ? 1 : 0) << " " << vp::hex(p.test_z() ? p.z() : 0)
+              << " " << ac.missing_xy_.count(PointID(id)) << " " << ac.missing_z_.count(PointID(id)) << "\n";
+  }
+  std::cout << "completed " << (a->completed() ? 1 : 0) << "\n";
   return 0;
 }
